@@ -1175,6 +1175,14 @@ where
                     safe.blobs.write().await.push(blob).await;
                     return Err(e);
                 }
+                // Deletion markers appended while the blob was closed are synced by the deferred index dump only.
+                // As an active blob it must respect the dirty bytes limit right away
+                if self.too_many_dirty_bytes(blob.file_dirty_bytes()) {
+                    if let Err(e) = blob.fsyncdata().await {
+                        safe.blobs.write().await.push(blob).await;
+                        return Err(e.into());
+                    }
+                }
                 safe.active_blob = Some(Box::new(ASRwLock::new(blob)));
                 Ok(())
             } else {
